@@ -17,7 +17,9 @@ StmtsAt(i) == { [name |-> StName(i), reads |-> r, pers |-> p] : r \in (SUBSET Na
 RECURSIVE ScriptsOfLen(_)
 ScriptsOfLen(n) == IF n = 0 THEN { <<>> }
                    ELSE { Append(s, x) : s \in ScriptsOfLen(n - 1), x \in StmtsAt(n) }
-AllScripts == UNION { ScriptsOfLen(n) : n \in 1..MaxStmts }
+\* the family: every sequence of 1..MaxStmts statements (an operator with a parameter, so that TLC does not enumerate the
+\* whole family as a constant when it starts)
+AllScripts(m) == UNION { ScriptsOfLen(n) : n \in 1..m }
 
 VARIABLES sc, rop,      \* the script and return_only_persistent (chosen initially)
           k, pc,        \* statement counter and position in the loop body
@@ -26,9 +28,18 @@ VARIABLES sc, rop,      \* the script and return_only_persistent (chosen initial
           ok            \* every operation issued so far was allowed by the abstract store
 vars == <<sc, rop, k, pc, st, todo, ok>>
 
-Init == /\ sc \in AllScripts /\ rop \in BOOLEAN
-        /\ k = 1 /\ pc = "load" /\ st = EmptyStore /\ todo = Insertion(sc, 1) /\ ok = TRUE
-        /\ PrintT("@@" \o ToJson([script |-> sc, rop |-> rop, schedule |-> Schedule(sc)]))
+\* The script is built statement by statement (pc = "build") and then started: the family explored is exactly
+\* AllScripts(MaxStmts) x BOOLEAN, but its members are reached by ACTIONS, which TLC's workers expand in parallel (as a set of
+\* initial states the 312 480 members of the thorough family were enumerated by one thread for over half an hour).
+Init == /\ sc = <<>> /\ rop \in BOOLEAN
+        /\ k = 1 /\ pc = "build" /\ st = EmptyStore /\ todo = {} /\ ok = TRUE
+Build == /\ pc = "build" /\ Len(sc) < MaxStmts
+         /\ \E x \in StmtsAt(Len(sc) + 1) : sc' = Append(sc, x)
+         /\ UNCHANGED <<rop, k, pc, st, todo, ok>>
+Start == /\ pc = "build" /\ Len(sc) >= 1
+         /\ pc' = "load" /\ todo' = Insertion(sc, 1)
+         /\ PrintT("@@" \o ToJson([script |-> sc, rop |-> rop, schedule |-> Schedule(sc)]))
+         /\ UNCHANGED <<sc, rop, k, st, ok>>
 
 \* load_scheduled_datasets: one dataset per step
 Load == /\ pc = "load" /\ todo # {}
@@ -70,7 +81,7 @@ FinalFetch == /\ pc = "final" /\ \E r \in todo :
               /\ UNCHANGED <<sc, rop, k, pc>>
 FinalDone == /\ pc = "final" /\ todo = {} /\ pc' = "done" /\ UNCHANGED <<sc, rop, k, st, todo, ok>>
 
-Next == Load \/ LoadDone \/ Exec \/ CleanInput \/ CleanFetch \/ CleanDrop \/ CleanDone \/ FinalFetch \/ FinalDone
+Next == Build \/ Start \/ Load \/ LoadDone \/ Exec \/ CleanInput \/ CleanFetch \/ CleanDrop \/ CleanDone \/ FinalFetch \/ FinalDone
 Spec == Init /\ [][Next]_vars
 
 (* Properties *)
